@@ -188,6 +188,7 @@ def case_roundtrip(ctx, rng, idx):
                 continue
             ctx.ev("args-not-mutated", np.array_equal(x, xb), cls=scheme + ".encode",
                    detail=tag)
+            ctx.hold("round-trip", scheme + ".encode", enc, tag)
             rx = H @ np.asarray(enc)
             rxb = rx.copy()
             okc, dec = ctx.call("round-trip", obj.decode, rx, cls="decode-exception",
@@ -198,6 +199,7 @@ def case_roundtrip(ctx, rng, idx):
             # receiver, stored, compared): decoding must leave it as it was
             ctx.ev("args-not-mutated", np.array_equal(rx, rxb), cls=scheme + ".decode",
                    detail={**tag, "how": how})
+            ctx.hold("round-trip", scheme + ".decode", dec, tag)
             dec = np.asarray(dec)
             ctx.ev("round-trip", dec.shape == (n,), cls=scheme + ":shape",
                    detail={**tag, "got": dec.shape, "n": n})
